@@ -369,6 +369,7 @@ def main(pid, tier):
     s = z3.Solver()
     s.set("timeout", 20_000)
     s.add(T > 0, *[v > 0 for v in y], *[u > 0 for u in users.values()])
+    undecided = set()
     natq = []
     for b, ll, table in batches:
         M = Machine([ll], H.base_stubs())
@@ -399,8 +400,12 @@ def main(pid, tier):
             elif r_ == "sat":
                 natq.append((idx, fe, ce, ref, name))
             else:
-                chk.unknown(name, "solver " + r_)
+                # no verdict within the time limit: the concrete comparison of the compiled C with Fortran semantics is
+                # still made; a disagreement there is a violation whatever the solver would have said
+                natq.append((idx, fe, ce, ref, name))
+                undecided.add(idx)
     chk.solver_s = time.time() - t0
+    chk._c12_undecided = undecided
     # native replay of the candidates: real libm vs Fortran semantics at random positive points
     if natq:
         _native_replay(chk, natq, deriveds, work)
@@ -448,6 +453,8 @@ def _native_replay(chk, natq, deriveds, work):
         if idx in confirmed:
             fe, ce, got, exp, envf = confirmed[idx]
             chk.violation(shape_key(fe, ce), f"Fortran {fe!r} is translated to C {ce!r}, which evaluates to {got!r} where Fortran semantics give {exp!r}", {"fortran": fe, "c": ce, "point": envf, "native_c": got, "fortran_value": exp})
+        elif idx in getattr(chk, "_c12_undecided", ()):
+            chk.unknown(name, "solver unknown; the native C value agrees with Fortran semantics at 6 random points")
         else:
             chk.unknown(name, "terms differ with uninterpreted libm but the native C value agrees with Fortran semantics at 6 random points")
 
